@@ -186,7 +186,10 @@ Record scase := mkSCase
     sroutes : list (list (string * string));  (* per server: Server.Routes() after the last event *)
     sprinted : list (list string);            (* per server: the lines of Server.PrintRoutes() *)
     safter : list (list (string * string));   (* the user's tables after the last event *)
-    sreqs : list sreq }.
+    sreqs : list sreq;
+    (* per server: the Handle calls Start made on the user's own router (rest.WithRouter: a recording wrapper of
+       router.NewRouter()), in order, with what each returned; None = the server runs on its default router *)
+    sbound : list (option (list (string * string * reg_result))) }.
 
 Definition sresponse_eqb (a b : sresponse) : bool :=
   match a, b with
@@ -239,6 +242,48 @@ Definition start_agrees (m : option start_result) (o : start_obs) : bool :=
 Fixpoint seq_from (i n : nat) : list nat :=
   match n with O => [] | S n' => i :: seq_from (S i) n' end.
 
+(* engine.bindRoutes as a sequence of router.Handle calls: every route in order, up to and including the first one
+   the router rejects *)
+Fixpoint bind_calls (r : router) (regs : list reg) : list (reg * reg_result) :=
+  match regs with
+  | [] => []
+  | g :: rest =>
+    match handle_reg r g with
+    | (r', RegOk) => (g, RegOk) :: bind_calls r' rest
+    | (_, e) => [(g, e)]
+    end
+  end.
+
+(* the same from the plain route list (no trie) *)
+Fixpoint spec_calls (T : table) (regs : list reg) : list (reg * reg_result) :=
+  match regs with
+  | [] => []
+  | g :: rest =>
+    match reg_spec T (rmethod g) (rpath g) with
+    | RegOk => (g, RegOk) :: spec_calls (table_step T g) rest
+    | e => [(g, e)]
+    end
+  end.
+
+(* what the engine of server i holds at the moment of its Start, in the heap model *)
+Definition bound_regs (tables : store) (cfgs : list scfg) (evs : list event) (i : nat) : list reg :=
+  let w0 := run opt_real cfgs tables (before_start i evs) in
+  engine_regs (wstore w0) (wgroups w0) i.
+
+Definition call_agrees (x : reg * reg_result) (o : string * string * reg_result) : bool :=
+  route_agrees (fst x) (fst o) && reg_result_eqb (snd x) (snd o).
+
+Definition bound_agrees (tables : store) (cfgs : list scfg) (evs : list event) (i : nat)
+                        (o : option (list (string * string * reg_result))) : bool :=
+  match o with
+  | None => true
+  | Some calls =>
+    if has_start i evs then
+      let c := nth i cfgs default_cfg in
+      forallb2 call_agrees (bind_calls (new_router (sc_nf c) (sc_na c || sc_cors c)) (bound_regs tables cfgs evs i)) calls
+    else match calls with [] => true | _ => false end
+  end.
+
 (* the heap model replays the registration sequence and reproduces what was observed *)
 Definition s_agrees (s : scase) : bool :=
   let w := run opt_real (scfgs s) (stables s) (sevents s) in
@@ -254,7 +299,8 @@ Definition s_agrees (s : scase) : bool :=
          existsb (sresponse_eqb (sqres q)) (sserve_allowed (sc_cors c) r (sqm q) (sqp q)) && mws_ok c q
          && slates_agree q
        | _ => false
-       end) (sreqs s).
+       end) (sreqs s)
+  && forallb2 (bound_agrees (stables s) (scfgs s) (sevents s)) ids (sbound s).
 
 (* the property, from what the user wrote only: for every server the route list is the union of
    the prefix-extended tables mounted on it ([spec_regs]; no store, no aliasing).  Registration at
@@ -319,9 +365,25 @@ Definition sreq_ok (s : scase) (q : sreq) : bool :=
               && slates_ok (table_of regs) (sc_nf c) (sc_na c) (sc_cors c) q
     end.       (* Server.Use / WithChain tags are not the property's business: compared by [agrees] *)
 
+(* route binding, from what the user wrote: Start hands the router every route of the union of the prefix-extended
+   tables, in the order written, up to and including the first one that must be rejected; each call is accepted /
+   rejected as the list prescribes *)
+Definition call_ok (x : reg * reg_result) (o : string * string * reg_result) : bool :=
+  route_agrees (fst x) (fst o) && same_verdict (snd x) (snd o).
+
+Definition bound_ok (s : scase) (i : nat) (o : option (list (string * string * reg_result))) : bool :=
+  match o with
+  | None => true
+  | Some calls =>
+    if negb (server_in_scope s i) then true
+    else if has_start i (sevents s) then forallb2 call_ok (spec_calls [] (user_regs s i)) calls
+    else match calls with [] => true | _ => false end
+  end.
+
 Definition s_prop_ok (s : scase) : bool :=
   forallb2 (start_ok s) (seq_from 0 (List.length (scfgs s))) (sstarts s)
-  && forallb (sreq_ok s) (sreqs s).
+  && forallb (sreq_ok s) (sreqs s)
+  && forallb2 (bound_ok s) (seq_from 0 (List.length (scfgs s))) (sbound s).
 
 Definition s_model_obs (s : scase) :=
   let w := run opt_real (scfgs s) (stables s) (sevents s) in
